@@ -78,7 +78,7 @@ example : (prune "x: Optional[int]".toList (([IMPORT_OPTIONAL, IMPORT_UNION]).fo
 
 /-! ### Per-type import derivation (`DataType.imports` / `all_imports` against `type_hint`) -/
 
-/-- FULL STATEMENT (kept visible; FALSE of the code, see the two refutations below): for every
+/-- FULL STATEMENT (kept visible; FALSE of the code, see the refutation below): for every
 type tree and option vector, every `typing` / `collections.abc` name written into the rendered hint
 is among the imports computed for the tree. -/
 def ImportsCoverHint : Prop :=
@@ -86,8 +86,9 @@ def ImportsCoverHint : Prop :=
     n ∈ impNames (allImports o true t)
 
 /-- PARTIAL, by structural induction on the tree, guard by guard (`node_cover`): it holds when
-(`coverOK`, decidable) no name taken from the input is itself one of the nine typing names, no
-node is a set under generic-container + standard-collections, dict keys are leaves; and the
+(`coverOK`, decidable) no name taken from the input is itself one of the nine typing names and
+dict keys are leaves — for EVERY option vector (the clause that excluded sets under
+generic-container + standard-collections went with the repair of C02-F2); and the
 `is_optional` flags the code's string rendering leaves are those of the structural rendering
 (`flagsAgree`, decidable; it is what `typeHint_eq_print` of C13 establishes). -/
 theorem imports_cover_hint_partial (o : Opts) (t : DT) (hc : coverOK o t = true)
@@ -116,16 +117,18 @@ example : ∀ o : Opts,
   intro o; obtain ⟨u, s, g⟩ := o
   cases u <;> cases s <;> cases g <;> decide
 
-/-- REFUTATION 1 (known finding C02-F2): generic containers + standard collections, a set: the hint
-says `FrozenSet[str]`, the import set has `collections.abc.Set`. -/
-theorem frozenset_not_imported :
+/-- non-vacuity on the former witness of C02-F2 (repaired): generic containers + standard
+collections, a set — the side conditions hold, the hint says `FrozenSet[str]` and `FrozenSet` is
+among the imports (`typing.FrozenSet`; it was `collections.abc.Set`). -/
+example :
     let o : Opts := { stdColl := true, genericCont := true }
     let t : DT := .mk { isSet := true } none [.mk { ty := sStr } none []]
+    coverOK o t = true ∧ flagsAgree o t = true ∧
     (typeHint o t).1 = sFrozenSet ++ ['['] ++ sStr ++ [']'] ∧
-    sFrozenSet ∈ namesOf (hintE o t).1 ∧ sFrozenSet ∉ impNames (allImports o true t) := by
+    sFrozenSet ∈ namesOf (hintE o t).1 ∧ IMPORT_FROZEN_SET ∈ allImports o true t := by
   decide
 
-/-- REFUTATION 2: `DataType.imports` asks the dict key only for its *own* imports
+/-- REFUTATION (the one that remains): `DataType.imports` asks the dict key only for its *own* imports
 (`self.dict_key.imports`, not `all_imports`): `Dict[List[int], str]` has no import of `List`. -/
 theorem nested_dict_key_not_imported :
     let o : Opts := {}
@@ -134,11 +137,13 @@ theorem nested_dict_key_not_imported :
     sList ∈ namesOf (hintE o t).1 ∧ sList ∉ impNames (allImports o true t) := by
   decide
 
+/-- the full statement is refuted by the nested dict key alone (`nested_dict_key_not_imported`) -/
 theorem imports_cover_hint_full_false : ¬ ImportsCoverHint := by
   intro h
-  have := h { stdColl := true, genericCont := true } (.mk { isSet := true } none [.mk { ty := sStr } none []])
-    sFrozenSet (by decide) (by decide)
-  exact absurd this (by decide)
+  have := h {} (.mk { isDict := true } (some (.mk {} none [.mk { isList := true } none [.mk { ty := ['i', 'n', 't'] } none []]]))
+      [.mk { ty := sStr } none []])
+    sList nested_dict_key_not_imported.1 (by decide)
+  exact nested_dict_key_not_imported.2 this
 
 /-! ### The module-level claim
 
